@@ -164,8 +164,9 @@ class Deseasonalizer(_SeriesToSeriesTransformer):
         self : an instance of self
         """
         self.check_is_fitted()
-        z = check_series(Z, enforce_univariate=True)
-        self._set_y_index(z)
+        check_series(Z, enforce_univariate=True)
+        # the seasonal component stays anchored to the start of the training
+        # series it was estimated on
         return self
 
 
